@@ -98,6 +98,7 @@ func (V *Verifier) runTop(fn *ssa.Function, key string, fs *FuncSpec, cands map[
 		// (the LK heaps start as their @pre constants; entry facts are added lazily in holdsEntry)
 	}
 	X.setHeap(st, "GM|maxalloc", SInt, ts.IntLit(0))
+	X.setHeap(st, "GM|maxmake", SInt, ts.IntLit(0))
 	X.Entry = st.Clone()
 	fr.EntryState = X.Entry
 	if fs != nil {
